@@ -223,6 +223,10 @@ def balance(cases, nbuckets):
 
 
 def run(prop_id, tier, seed, replay=None):
+    replay_doc = None
+    if replay:                      # read it first: it may live in the work dir that is recreated below
+        with open(replay) as f:
+            replay_doc = json.load(f)
     rep = vlib.Report(prop_id, tier, seed)
     wd = vlib.workdir(prop_id)
     rep.rule = ("cases = JaxIR programs built by TLC (Incremental.tla: SpecBfs one-equation family, SpecRand LCG chains, every "
@@ -230,8 +234,7 @@ def run(prop_id, tier, seed, replay=None):
                 "and a seeded subset eagerly; evaluations = interpreter calls compared with TLC; non-trivial = distinct "
                 "(program, tagging) where the implementation tagged some computed outputs NoChange and others Unknown")
     if replay:
-        with open(replay) as f:
-            cases = [json.load(f)["detail"]["case"]]
+        cases = [replay_doc["detail"]["case"]]
     else:
         cases = generate("Incremental", wd, seed, tier, rep, ["RoleA", "EmitCase"])
         rep.exhaustive = False
